@@ -1316,6 +1316,13 @@ def await_shapes():
         [st("x", 1)], [st("x", 2), st("d", 1, "rel")]))
     A(P("await-two-writers-reread-thread", SJ(3) + JJ(3), [st("x", 1)], [st("x", 2), st("d", 1, "rel")],
         [await_("x", "rlx"), await_("d", "acq"), ld("x")]))
+    # a thread that yielded before it spawned: the child's loads are judged by the child's own history, not by its parent's
+    # yield point (the child may still read the older of two stores at its third load)
+    A(P("await-then-spawn-reader", [spawn(2), spawn(3), I("yield"), await_("x", "rlx"), spawn(4), join(2), join(3), join(4)],
+        [st("x", 1)], [st("y", 1), st("z", 1)], [ld("y"), ld("z"), ld("y")]))
+    A(P("await-spin-then-spawn-reader", [spawn(2), spawn(3), I("yield"), I("await", "x", ord="rlx", k="spin"), spawn(4), join(2), join(3), join(4)],
+        [st("x", 1)], [st("y", 1), st("z", 1)], [ld("y"), ld("z"), ld("y")]))
+    A(P("yield-then-spawn-reader", [spawn(2), I("yield"), spawn(3), join(2), join(3)], [st("y", 1), st("z", 1)], [ld("y"), ld("z"), ld("y")]))
     # two waiters in a chain, in both spawn orders: the thread that yields may have a higher or a lower index than the one it waits for
     hs1 = [st("x", 1, "rel"), await_("y", "acq"), ld("z")]
     hs2 = [await_("x", "acq"), st("z", 1), st("y", 1, "rel")]
@@ -1451,6 +1458,12 @@ def future_shapes():
         A(P(f"wake-no-flag[{k}]", [spawn(2), BO(k), join(2)], [WK]))
         A(P(f"blockon-in-thread[{k}]", [spawn(2), st("f", 1, "rel"), WK, join(2)], [BO(k)]))
         A(P(f"handover[{k}]", [spawn(2), BO(k), rd("c"), join(2)], [wr("c"), st("f", 1, "rel"), WK]))
+        # every pair of positions (waker's thread index, future's thread index): a wake reaches a thread created long after
+        # the waker as well as one created before it
+        A(P(f"blockon-in-last-thread-woken-by-main[{k}]", [spawn(2), spawn(3), st("f", 1, "rel"), WK, join(2), join(3)], [ld("x")], [BO(k)]))
+        A(P(f"blockon-in-last-thread-woken-by-first[{k}]", [spawn(2), spawn(3), spawn(4), join(2), join(3), join(4)], [st("f", 1, "rel"), WK], [ld("x")], [BO(k)]))
+        A(P(f"blockon-in-first-thread-woken-by-last[{k}]", [spawn(2), spawn(3), spawn(4), join(2), join(3), join(4)], [BO(k)], [ld("x")], [st("f", 1, "rel"), WK]))
+        A(P(f"blockon-in-main-woken-by-last[{k}]", [spawn(2), spawn(3), spawn(4), BO(k), join(2), join(3), join(4)], [ld("x")], [ld("x")], [st("f", 1, "rel"), WK]))
         A(P(f"already-ready[{k}]", [st("f", 1), BO(k)]))
         # the waker stores an intermediate value before the final one; the future is ready at the final value only. A wake
         # that arrives during a poll is never lost, also when the following wait returns spuriously (it stays pending)
